@@ -326,6 +326,9 @@ func (it *Interp) eval(fr *frame, e Expr) Value {
 		r := it.eval(fr, x.R)
 		it.feat("op:" + x.Op)
 		if l.T == TString {
+			if len(l.S)+len(r.S) > 1<<16 {
+				it.undef("string too long (resource guard)")
+			}
 			return Value{T: TString, S: l.S + r.S}
 		}
 		return Value{T: TInt, I: it.arith(x.Op, l.I, r.I)}
@@ -708,6 +711,9 @@ func (it *Interp) exec(fr *frame, s Stmt, top bool) ctl {
 		l := c.v
 		r := it.eval(fr, x.V)
 		if l.T == TString {
+			if len(l.S)+len(r.S) > 1<<16 {
+				it.undef("string too long (resource guard)")
+			}
 			c.v = Value{T: TString, S: l.S + r.S}
 		} else {
 			c.v = Value{T: TInt, I: it.arith(x.Op, l.I, r.I)}
